@@ -70,8 +70,8 @@ func main() {
 	rnd := hx.NewRand(*seed)
 	thorough := *tier == "thorough"
 
-	npk, nf, maxInstrs, ntd := 2, 12, 400, 4
-	repoPats := []string{"./lintcmd/cache", "./config", "./analysis/report", "./go/gcsizes"}
+	npk, nf, maxInstrs, ntd := 2, 7, 300, 2
+	repoPats := []string{"./config", "./go/gcsizes"}
 	allModes := hx.AllModes()
 	// outside the generated corpus the quick tier uses 4 of the 16 mode combinations
 	fewModes := []ir.BuilderMode{0, ir.NaiveForm, ir.GlobalDebug | ir.InstantiateGenerics, ir.NaiveForm | ir.GlobalDebug | ir.InstantiateGenerics | ir.BuildSerially}
@@ -114,8 +114,8 @@ func main() {
 			res.Gen.RecoverFuncs += it.Gen.RecoverFuncs
 		}
 		modes := allModes
-		if it.Kind != "gen" {
-			modes = fewModes
+		if it.Kind != "gen" || (it.Name != "gen/p0" && !thorough) {
+			modes = fewModes // quick tier: all 16 combinations on the first generated package only
 		}
 		for _, m := range modes {
 			hx.WriteFile(*work+"/progress.txt", it.Name+" "+hx.ModeLetters(m)+"\n")
